@@ -381,7 +381,7 @@ func init() {
 		Setup: func(tier string, seed uint64) int {
 			resp.LaxIntegers = true
 			c04.seed, c04.tier = seed, tier
-			return map[string]int{"quick": 30000, "thorough": 900000}[tier]
+			return map[string]int{"quick": 30000, "thorough": 3000000}[tier]
 		},
 		Run: c04run,
 		Describe: func(idx int) any {
